@@ -196,21 +196,22 @@ func TestE2EPinning(t *testing.T) {
 			}
 			bogus := sha256.Sum256([]byte(fmt.Sprintf("bogus-%d", i)))
 			type tc struct {
+				tag  string
 				name string
 				addr ma.Multiaddr
 				ok   bool
 			}
 			cases := []tc{
-				{"advertised address (current+next)", full, true},
-				{"[current]", base.Encapsulate(certhashComponent(t, cur, multihash.SHA2_256)), true},
-				{"[current, bogus] - server cannot confirm bogus", base.Encapsulate(certhashComponent(t, cur, multihash.SHA2_256)).Encapsulate(certhashComponent(t, bogus[:], multihash.SHA2_256)), false},
-				{"[bogus, current]", base.Encapsulate(certhashComponent(t, bogus[:], multihash.SHA2_256)).Encapsulate(certhashComponent(t, cur, multihash.SHA2_256)), false},
-				{"[bogus]", base.Encapsulate(certhashComponent(t, bogus[:], multihash.SHA2_256)), false},
-				{"[current digest under sha3-256 code]", base.Encapsulate(certhashComponent(t, cur, multihash.SHA3_256)), false},
-				{"no certhash", base, false},
+				{"advertised", "advertised address (current+next)", full, true},
+				{"current", "[current]", base.Encapsulate(certhashComponent(t, cur, multihash.SHA2_256)), true},
+				{"current+bogus", "[current, bogus] - server cannot confirm bogus", base.Encapsulate(certhashComponent(t, cur, multihash.SHA2_256)).Encapsulate(certhashComponent(t, bogus[:], multihash.SHA2_256)), false},
+				{"bogus+current", "[bogus, current]", base.Encapsulate(certhashComponent(t, bogus[:], multihash.SHA2_256)).Encapsulate(certhashComponent(t, cur, multihash.SHA2_256)), false},
+				{"bogus", "[bogus]", base.Encapsulate(certhashComponent(t, bogus[:], multihash.SHA2_256)), false},
+				{"current-digest-other-code", "[current digest under sha3-256 code]", base.Encapsulate(certhashComponent(t, cur, multihash.SHA3_256)), false},
+				{"no-certhash", "no certhash", base, false},
 			}
 			if other != nil {
-				cases = append(cases, tc{"[next only]", base.Encapsulate(certhashComponent(t, other, multihash.SHA2_256)), false})
+				cases = append(cases, tc{"next-only", "[next only]", base.Encapsulate(certhashComponent(t, other, multihash.SHA2_256)), false})
 			}
 			for _, c := range cases {
 				err := dialOnce(t, d, c.addr, srv.id)
@@ -224,7 +225,7 @@ func TestE2EPinning(t *testing.T) {
 				if !c.ok && err == nil {
 					t.Fatalf("%s: dial completed although the dialer relied on a hash the server does not serve/confirm (%s)", c.name, c.addr)
 				}
-				stats.CaseEnumerated(name, true, "e2e:"+strings.SplitN(c.name, " ", 2)[0])
+				stats.CaseEnumerated(name, true, "e2e:"+c.tag)
 			}
 		})
 	}
